@@ -289,12 +289,21 @@ func (n *navigator) walk(seq []*model.Value, inStruct bool, depth int) (ok bool)
 		if !n.head(v, inStruct) {
 			return false
 		}
-		acts := nActs
-		if depth == 0 {
-			acts = nActs - 1
-		}
-		act := n.d.choose(acts)
+		act := n.d.choose(nActs)
 		container := v.Kind.IsContainer() && !v.IsNull
+		if depth == 0 && act == actLeave {
+			// there is nothing to leave at top level: StepOut must be refused and change nothing,
+			// whatever the current value is (scalar, null, container not yet entered)
+			n.log("StepOut at top level on %v (must be refused)", v.Kind)
+			n.nontr = true
+			if err := n.r.StepOut(); err == nil {
+				return n.bad("StepOut at top level on a %s returned no error", model.Fmt(v))
+			}
+			if !n.head(v, inStruct) {
+				return false
+			}
+			act = []int{actRead, actSkip}[n.d.choose(2)]
+		}
 		switch act {
 		case actSkip:
 			n.log("skip %v", v.Kind)
